@@ -74,6 +74,7 @@ def run_case(ctx, case_seed):
         for limit in rng.sample([None, None, 1, 2, max(nm - 1, 1), max(nm, 1), nm + 1, 1000], 3):
             queries.append((cat, flt, limit, rng.random() < 0.3, rng.choice(['ids', 'ids', 'metadata', 'lookup', 'lookup_all'])))
     per_cassette_tokens = {}
+    moved_dirs = []
     for kind, prefix in CONFIGS:
         with open_box(kind, prefix=prefix, hostile_dir=(case_seed % 2 == 0)) as box:
             lookup_start = None
@@ -127,6 +128,21 @@ def run_case(ctx, case_seed):
                     box.cassette.save_recording(again)
                     saved[j] = (rid, cat, md2)
                     ctx.count('resaves_under_same_id')
+            if kind == 'file' and case_seed % 3 == 1 and saved:
+                # an operator moved some recording files to another volume and left symbolic links behind
+                import os
+                import shutil
+                import tempfile
+                elsewhere = tempfile.mkdtemp(prefix='vp-c10-moved-')
+                moved_dirs.append(elsewhere)
+                for j, (rid, _, _) in enumerate(saved):
+                    if j % 2 == 0:
+                        pth = box.cassette._get_recording_file_path(rid)
+                        if os.path.isfile(pth) and not os.path.islink(pth):
+                            dst = os.path.join(elsewhere, '%d.json' % j)
+                            shutil.move(pth, dst)
+                            os.symlink(dst, pth)
+                            ctx.count('recording_files_replaced_by_symlinks')
             tok_of = {rid: md['tok'] for rid, _, md in saved}
             for qi, (cat, flt, limit, rnd, path) in enumerate(queries):
                 desc = {'store': [(c, m) for c, m in specs], 'cassette': kind + ':' + prefix, 'category': cat,
@@ -216,6 +232,9 @@ def run_case(ctx, case_seed):
                         may = set(r for r, v in verdicts if v == UNSPEC)
                         if not (must <= set(got2[g]) <= (must | may)) or len(got2[g]) != len(set(got2[g])):
                             ctx.violation('a listing consumed while another listing of the same %s cassette was in flight is not exact' % kind, dict(w, listing=g))
+    for d_ in moved_dirs:
+        import shutil
+        shutil.rmtree(d_, ignore_errors=True)
     for qi, by in per_cassette_tokens.items():
         vals = list(by.values())
         ctx.count('cross_cassette_comparisons')
@@ -287,6 +306,60 @@ def shared_objects_listing(ctx):
         ctx.count('cross_cassette_comparisons')
         if any(v != vals[0] for v in vals):
             ctx.violation('cassettes disagree on the same saved set', {'shared_objects_listing': True, 'query': qi, 'tokens_by_cassette': by})
+
+
+def custom_id_scheme(ctx):
+    """Cassette subclasses with their own id layout (documented extension points create_new_recording / extract_recording_category):
+    '<category>@<deployment>/<unique>' and '<deployment>/<category>/<unique>'. Lookups go by what extract_recording_category says."""
+    import uuid
+    from playback.tape_cassettes.in_memory.in_memory_tape_cassette import InMemoryTapeCassette
+    from playback.tape_cassettes.file_based.file_based_tape_cassette import FileBasedTapeCassette
+    from playback.recordings.memory.memory_recording import MemoryRecording
+    from playback.tape_recorder import TapeRecorder
+    from playback.studio.recordings_lookup import find_matching_recording_ids, RecordingLookupProperties
+    import shutil
+    import tempfile
+    for scheme in ('category@deployment', 'deployment/category'):
+        def mixin(base):
+            class Custom(base):
+                def create_new_recording(self, category):
+                    if scheme == 'category@deployment':
+                        return MemoryRecording(u'%s@eu-1/%s' % (category, uuid.uuid1().hex))
+                    return MemoryRecording(u'eu-1/%s/%s' % (category, uuid.uuid1().hex))
+
+                def extract_recording_category(self, recording_id):
+                    return recording_id.split('@')[0] if scheme == 'category@deployment' else recording_id.split('/')[1]
+            return Custom
+        d = tempfile.mkdtemp(prefix='vp-c10-custom-')
+        try:
+            # (the file cassette finds candidates by file NAME prefix: only layouts that start with the category can be served by a subclass of it)
+            for kind, cas in (('memory', mixin(InMemoryTapeCassette)()),) + ((('file', mixin(FileBasedTapeCassette)(d)),) if scheme == 'category@deployment' else ()):
+                saved = []
+                for i, cat in enumerate(['Op', 'OpX', 'Op', 'eu-1', 'Op', 'A']):
+                    rec = cas.create_new_recording(cat)
+                    rec.set_data('x', i)
+                    rec.add_metadata({'n': i, TapeRecorder.INCOMPLETE_RECORDING: i == 4})
+                    cas.save_recording(rec)
+                    saved.append((rec.id, cat, i))
+                for cat in ('Op', 'OpX', 'eu-1', 'A', 'Op@eu-1', 'nope'):
+                    for path in ('ids', 'lookup'):
+                        w = {'custom_id_scheme': scheme, 'cassette': kind, 'category': cat, 'path': path}
+                        ctx.case(w)
+                        ctx.count('listings_on_cassettes_with_their_own_id_layout')
+                        try:
+                            if path == 'ids':
+                                got = list(cas.iter_recording_ids(cat))
+                                must = set(r for r, c, i in saved if c == cat)
+                            else:
+                                got = list(find_matching_recording_ids(TapeRecorder(cas), cat, RecordingLookupProperties(None)))
+                                must = set(r for r, c, i in saved if c == cat and i != 4)
+                        except Exception as ex:
+                            ctx.violation('listing on a %s cassette with its own id layout raised %s' % (kind, type(ex).__name__), dict(w, error=repr(ex)[:120]))
+                            continue
+                        if set(got) != must or len(got) != len(set(got)):
+                            ctx.violation('listing on a %s cassette subclass with its own id layout: %d ids, %d recordings belong to the category' % (kind, len(got), len(must)), w)
+        finally:
+            shutil.rmtree(d, ignore_errors=True)
 
 
 def file_save_faults(ctx, n):
@@ -388,6 +461,7 @@ def run(ctx):
     file_save_faults(ctx, ctx.budget(20, 1000))
     if ctx.shard == 0:
         shared_objects_listing(ctx)
+        custom_id_scheme(ctx)
     n = ctx.budget(150, 5000)
     base = ctx.seed * 1000003 + ctx.shard * 100000
     for i in range(n):
@@ -398,6 +472,8 @@ def run(ctx):
 
 
 def replay(ctx, w):
+    if w.get('custom_id_scheme'):
+        return custom_id_scheme(ctx)
     if w.get('shared_objects_listing'):
         return shared_objects_listing(ctx)
     if w.get('concurrent_saves') or w.get('file_save_faults'):
